@@ -347,7 +347,7 @@ func (e multiErrors) Result() error {
 func mergeHeaders(a, b []*conformancev1.Header) []*conformancev1.Header {
 	mergedMap := map[string][]string{}
 	for _, hdr := range a {
-		mergedMap[strings.ToLower(hdr.Name)] = hdr.Value
+		mergedMap[strings.ToLower(hdr.Name)] = append(mergedMap[strings.ToLower(hdr.Name)], hdr.Value...)
 	}
 	for _, hdr := range b {
 		mergedMap[strings.ToLower(hdr.Name)] = append(mergedMap[strings.ToLower(hdr.Name)], hdr.Value...)
@@ -363,7 +363,8 @@ func checkHeaders(what string, expected, actual []*conformancev1.Header) multiEr
 	var errs multiErrors
 	actualHeaders := map[string][]string{}
 	for _, hdr := range actual {
-		actualHeaders[strings.ToLower(hdr.Name)] = hdr.Value
+		// the same name may be reported in more than one entry
+		actualHeaders[strings.ToLower(hdr.Name)] = append(actualHeaders[strings.ToLower(hdr.Name)], hdr.Value...)
 	}
 	for _, hdr := range expected {
 		name := strings.ToLower(hdr.Name)
